@@ -42,7 +42,9 @@ AUDIT_TASK = """Your task: AUDIT the unchanged library against this property. Do
 
 Deliberately OUT of scope, already known (do not report these): (a) a dataclass with out_format='tuple' emits keyword-only fields that tuple input refuses; (b) pane.types.Range instances do not survive convert(); (c) an internally tagged union whose tag field is renamed for output cannot re-read its output; (d) a ValueOrList member of an untagged union next to a member accepting any object; (e) bool given where a number is expected is accepted (documented Python semantics); (f) values that merely == a Literal / enum value / tag of another type (1.0 vs 1, True vs 1) are accepted; (g) the python field name is accepted as a mapping key even when other input names are configured; (h) numpy.typing.NDArray[...] is unsupported on this numpy version; (i) which entry wins when two mapping keys convert to the same typed key; (j) a mapping entry whose key AND value are both bad reports only one of the two in the error tree; (k) a dataclass with eq=False, order=True has comparison operators that are not a trichotomy; (l) convert() of a compiled regular expression drops its flags; (m) a field declared init=False appears in into_data output and the output is then refused as input; (n) instances of user subclasses of int / str / float / date given as input data (whether they are accepted is unspecified).
 
-This is a SECOND auditing pass: an earlier pass already examined the obvious places (scalar conversions, optional/union basics, simple dataclasses, simple error messages) and about seventy defects were repaired since. Spend your effort on deeper combinations: three features at once, nested generics, inheritance chains of dataclasses with differing class options, tagged unions inside containers inside dataclasses, custom converters / handlers combined with everything else, conditions on container types, the less common typing forms (Annotated nested twice, NewType, TypeVar with constraints, Final, ClassVar, Optional of Literal, Tuple[()] and Tuple[T, ...], collections.abc forms, PEP 604 unions, typing.Required / NotRequired where supported), YAML-specific input (anchors, merge keys, multi-document streams, tags), and long sequences of API calls on the same class objects.
+Also already known and NOT to be reported again (a THIRD pass: two earlier passes reported these, about ninety defects were repaired): (o) tuple output with an excluded or keyword-only field does not line up with tuple input; `out_format` not among `in_format`; (p) untagged-union ambiguity after serialisation (`Union[str, Decimal]`, `Union[Base, Derived]` written by Base), `convert()` at `Any` positions returns the serialised form; (q) PEP 604 `int | None`, `NewType`, `ClassVar`, `Final`, `TypedDict`, classes derived from parameterised containers, `Literal[<enum member>]`, Enum-valued tags, generic `NamedTuple[T]`, `Generic[T]` listed before `PaneBase`, PEP 695 classes under `from __future__ import annotations` are unsupported forms; (r) externally / adjacently tagged unions report the variant's tree without a level for the tag key, the internally tagged missing-tag leaf holds a dict copy, set members are keyed by iteration position; (s) `dict(set_only=True)` includes excluded fields and follows set order, `copy()` re-runs `__post_init__`, plain mutable defaults are shared, fields named `self` / `cls`; (t) passed handlers are called with an empty `ConverterHandlers()`, conditions inside a union member take part in choosing the member on output, struct-type dicts or `field()` objects mutated / shared after first use, `FieldSpec(compare=False)`; (u) documentation slips (`in_format` default, the Converter example in advanced.md that is not a Converter subclass, the unused `name=` option, `in_names` 'excludes' the python name); (v) `pane.types.Range` in every form; letters without one-to-one case mapping and digits in renamed field names; binary streams given to the io functions; RecursionError on very deep or self-referential data; ints of more than 4300 digits inside Enum / Literal *types*; `range(10**30)`; pickling; typing's own subscription cache reordering a type the USER wrote with `typing.List[...]` / `Optional[...]` (only orders that pane itself loses count).
+
+This is a THIRD auditing pass: an earlier pass already examined the obvious places (scalar conversions, optional/union basics, simple dataclasses, simple error messages) and about ninety defects were repaired since. Spend your effort on what is left: the io module (from_json / from_yaml / write_* with every option, encodings, newline handling, multi-document streams), the numpy addon, pane.types (ValueOrList, the numeric aliases), datetime / time zones / paths / patterns, Decimal / Fraction edge values, very small corner cases of the error text, concurrency (threads), and on deeper combinations: three features at once, nested generics, inheritance chains of dataclasses with differing class options, tagged unions inside containers inside dataclasses, custom converters / handlers combined with everything else, conditions on container types, the less common typing forms (Annotated nested twice, NewType, TypeVar with constraints, Final, ClassVar, Optional of Literal, Tuple[()] and Tuple[T, ...], collections.abc forms, PEP 604 unions, typing.Required / NotRequired where supported), YAML-specific input (anchors, merge keys, multi-document streams, tags), and long sequences of API calls on the same class objects.
 
 For every violation you can demonstrate:
 1. Write {wt}/repro_<n>.py: a small standalone program that prints what it observes and exits NON-ZERO while the violation is present (and would exit 0 once it is repaired).
